@@ -315,8 +315,8 @@ def me_hooks():
             return obj.tag
         if isinstance(obj, EnumObj) and attr in ('name', 'members'):
             return getattr(obj, attr)
-        if isinstance(obj, AbsList) and attr == 'append':
-            return I.MethodOf(obj, 'append')
+        if isinstance(obj, AbsList) and attr in ('append', 'extend', 'insert'):
+            return I.MethodOf(obj, attr)
         return msm_getattr(vm, obj, attr)
 
     def method(vm, obj, name, args, kwargs):
@@ -327,6 +327,12 @@ def me_hooks():
             return v
         if isinstance(obj, AbsList) and name == 'append':
             obj.m_append(vm, args[0])
+            return None
+        if isinstance(obj, AbsList) and name == 'extend':
+            obj.m_extend(vm, args[0])
+            return None
+        if isinstance(obj, AbsList) and name == 'insert':
+            obj.m_insert(vm, args[0], args[1])
             return None
         return msm_method(vm, obj, name, args, kwargs)
 
@@ -592,10 +598,14 @@ def ms_hooks():
         n = getattr(fn, 'name', None) or getattr(fn, 'qualname', None) or ''
         last = n.split('.')[-1] if isinstance(n, str) else ''
         if isinstance(fn, Closure) and last == 'make_struct_members':
-            ok = len(args) == 2 and not kwargs and isinstance(args[0], MemberChild) and args[1] is st['flag']
-            vm.oblige('call.make_struct_members:(the child at hand, the flag as given)', z3.BoolVal(ok), 'call', vm.cur_line)
-            if not ok:
-                raise OutOfSubset('make_struct_members called otherwise')
+            ok = len(args) == 2 and not kwargs and isinstance(args[0], MemberChild)
+            given = (vm.truthy(args[1]) if isinstance(args[1], Sym) else z3.BoolVal(bool(args[1]))) if ok else None
+            if given is not None and not z3.is_expr(given):
+                given = z3.BoolVal(bool(given))
+            vm.oblige('call.make_struct_members:(the child at hand, the flag as given)',
+                      (given == st['flag'].t) if ok else z3.BoolVal(False), 'call', vm.cur_line)
+            if not (args and isinstance(args[0], MemberChild)):
+                raise OutOfSubset('make_struct_members called on something else than a child')
             i = args[0].i
             vm.assume(z3.And(1 <= SM_LEN(i), SM_LEN(i) <= 3))            # its contract: one to three members
             if vm.choose(2) == 1:
@@ -664,8 +674,9 @@ def ms_post(vm, st, result):
             ('named as the element', vm.as_str(result.name) == st['elem'].attrs['name'].t)] + concat_facts(vm, result.members, NCHILD())
 
 
-Contract(ISAR, 'make_struct', ['C17'], ms_setup, ms_post, raises=mu_raises, modifies=[], hooks=ms_hooks(),
+_MS = Contract(ISAR, 'make_struct', ['C17'], ms_setup, ms_post, raises=mu_raises, modifies=[], hooks=ms_hooks(),
          loops={0: LoopAnn(ms_outer, index='k', locals_={'members': fresh_members}, extra_havoc=('members',), unfold=ms_unfold),
                 1: LoopAnn(ms_inner, index='j', locals_={'members': fresh_members}, extra_havoc=('members',), unfold=ms_inner_unfold)},
          notes=['make_struct_members by its contract (one to three members, or ParseError)',
                 'offset(i+1) = offset(i) + len(i): the definition of the running sum, unfolded at the loop index'])
+_MS.optional_loops = (1,)        # `members.extend(make_struct_members(...))` would express the inner loop without a loop
